@@ -1,3 +1,115 @@
-(* C07 — statements are added with the proofs; see DESIGN.md *)
+(* C07 — Short-term credentials: only authenticated messages are delivered (abstract-message level: a MAC verifies iff it was made with the key the verifier uses; the byte-level meaning is C04). Statements only; proofs live in the imported files. *)
 From Coq Require Import List NArith Bool.
-From Rustun Require Import Agent.Rto Agent.Model Agent.Monitors.
+Import ListNotations.
+From Rustun Require Import Agent.Rto Agent.Model Agent.Monitors Proofs.AgentInv Proofs.AgentTrace Proofs.AgentMech.
+Open Scope N_scope.
+
+(* an accepted message carries, among the attributes the RFC ordering rule admits, an integrity attribute of the agreed kind that verifies under the configured password *)
+Theorem C07_accept_sound :
+  forall (rel : bool) (mk : list txid) (s : st_mech) (m : msg) (mk' : list txid) (s' : st_mech),
+         st_recv rel mk s m = (None, mk', s') ->
+         exists a : attr,
+           In a (rfc_filter (m_attrs m)) /\
+           (a_is_mi a = true \/ a_is_sha a = true) /\
+           keyd_eqb (mac_key a) (KST 0) = true /\
+           (st_agreed s = Some IMI -> a_is_mi a = true) /\ (st_agreed s = Some ISHA -> a_is_sha a = true).
+Proof. exact AgentMech.st_accept_sound. Qed.
+Print Assumptions C07_accept_sound.
+
+(* on the client: a StunMessageReceived event is emitted only if the short-term mechanism accepted the message *)
+Theorem C07_client_delivery_sound :
+  forall (c : client) (now : N) (w : msg) (s : st_mech) (c' : client) (r : reply) 
+           (evs : list event) (m : msg),
+         mech_ c = MST s ->
+         step c (Recv now true w) = (c', r, evs) ->
+         In (Received m) evs ->
+         m = wmsg w /\
+         evs = [Received m] /\
+         r = ROk None /\
+         (exists (mk' : list txid) (s' : st_mech),
+            st_recv (reliable (cfg c)) (markers c) s (wmsg w) = (None, mk', s') /\
+            mech_ c' = MST s' /\
+            markers c' = mk' /\
+            (exists a : attr,
+               In a (rfc_filter (m_attrs w)) /\
+               (a_is_mi a = true \/ a_is_sha a = true) /\
+               keyd_eqb (mac_key a) (KST 0) = true /\
+               (st_agreed s = Some IMI -> a_is_mi a = true) /\ (st_agreed s = Some ISHA -> a_is_sha a = true))).
+Proof. exact AgentMech.client_received_st. Qed.
+Print Assumptions C07_client_delivery_sound.
+
+(* responses carrying both integrity attributes are rejected without any state change *)
+Theorem C07_no_both_in_response :
+  forall (rel : bool) (mk : list txid) (s : st_mech) (m : msg),
+         is_response m = true ->
+         existsb a_is_mi (rfc_filter (m_attrs m)) = true ->
+         existsb a_is_sha (rfc_filter (m_attrs m)) = true -> st_recv rel mk s m = (Some EDiscarded, mk, s).
+Proof. exact AgentMech.st_no_both_in_response. Qed.
+Print Assumptions C07_no_both_in_response.
+
+(* the agreed algorithm changes only when none was agreed, on an authenticated response, to the kind of the accepted attribute *)
+Theorem C07_learning :
+  forall (rel : bool) (mk : list txid) (s : st_mech) (m : msg) (e : option ierr) 
+           (mk' : list txid) (s' : st_mech),
+         st_recv rel mk s m = (e, mk', s') ->
+         st_agreed s' <> st_agreed s ->
+         st_agreed s = None /\
+         is_response m = true /\
+         e = None /\
+         (exists a : attr,
+            In a (rfc_filter (m_attrs m)) /\
+            (a_is_mi a = true \/ a_is_sha a = true) /\
+            keyd_eqb (mac_key a) (KST 0) = true /\ st_agreed s' = Some (if a_is_mi a then IMI else ISHA)).
+Proof. exact AgentMech.st_learning. Qed.
+Print Assumptions C07_learning.
+
+(* a response whose picked integrity attribute is absent or wrong: protection violated at once on reliable transport *)
+Theorem C07_reject_reliable :
+  forall (mk : list txid) (s : st_mech) (m : msg) (mi sha : option attr),
+         is_response m = true ->
+         st_scan true (rfc_filter (m_attrs m)) None None = Some (mi, sha) ->
+         st_fails s mi sha -> st_recv true mk s m = (Some EViolated, mk, s).
+Proof. exact AgentMech.st_reject_reliable. Qed.
+Print Assumptions C07_reject_reliable.
+
+(* ... ignored and marked on unreliable transport (the marker turns the final time-out into protection-violated: C06_tmo_deadline, rsn) *)
+Theorem C07_reject_unreliable :
+  forall (mk : list txid) (s : st_mech) (m : msg) (mi sha : option attr),
+         is_response m = true ->
+         st_scan true (rfc_filter (m_attrs m)) None None = Some (mi, sha) ->
+         st_fails s mi sha -> st_recv false mk s m = (Some EDiscarded, ins (m_id m) mk, s).
+Proof. exact AgentMech.st_reject_unreliable. Qed.
+Print Assumptions C07_reject_unreliable.
+
+Theorem C07_reject_indication :
+  forall (rel : bool) (mk : list txid) (s : st_mech) (m : msg) (mi sha : option attr),
+         m_class m = CIndication ->
+         st_scan false (rfc_filter (m_attrs m)) None None = Some (mi, sha) ->
+         st_fails s mi sha -> st_recv rel mk s m = (Some EDiscarded, mk, s).
+Proof. exact AgentMech.st_reject_indication. Qed.
+Print Assumptions C07_reject_indication.
+
+Theorem C07_accept_complete :
+  forall (rel : bool) (mk : list txid) (s : st_mech) (m : msg) (mi sha : option attr) (a : attr),
+         class_eqb (m_class m) CRequest = false ->
+         st_scan (negb (class_eqb (m_class m) CIndication)) (rfc_filter (m_attrs m)) None None = Some (mi, sha) ->
+         st_pick s mi sha = Some a ->
+         keyd_eqb (mac_key a) (KST 0) = true -> fst (fst (st_recv rel mk s m)) = None.
+Proof. exact AgentMech.st_accept_complete. Qed.
+Print Assumptions C07_accept_complete.
+
+(* every request and indication carries USERNAME (the configured one, exactly once) and the agreed integrity attribute, or both when none is agreed, keyed with the configured password *)
+Theorem C07_outgoing_layout :
+  forall (s : st_mech) (app0 : list attr),
+         flatten (st_prepare s (of_list app0)) =
+         remove_first 6 (ord (of_list app0)) ++ [UserName 0] ++ st_tail s ++ opt_list (sl_fp (of_list app0)) /\
+         has_ty 6 (remove_first 6 (ord (of_list app0))) = false.
+Proof. exact AgentMech.st_prepare_layout_client. Qed.
+Print Assumptions C07_outgoing_layout.
+
+Theorem C07_outgoing_integrity_is_own :
+  forall (s : st_mech) (x : attrs) (a : attr),
+         AInv x ->
+         In a (flatten (st_prepare s x)) -> is_integ a = true -> In a (st_tail s) /\ mac_key a = KST 0.
+Proof. exact AgentMech.st_prepare_integrity. Qed.
+Print Assumptions C07_outgoing_integrity_is_own.
